@@ -136,6 +136,10 @@ func main() {
 		beh := beh
 		runOne(func(c *gsim.Cluster) {
 			for _, a := range beh {
+				if len(a) > 0 && str(a[0]) == "Sweeps" {
+					c.Sweeps(num(a[1]), num(a[2]), emit)
+					continue
+				}
 				if len(a) > 0 && str(a[0]) == "SelectionStats" {
 					c.SelectionStats(str(a[1]), num(a[2]), emit)
 					continue
